@@ -71,12 +71,17 @@ def _e2_job(mono: bool) -> Obligation:
     comps = [{"C": 2, "H": 5, "O": 1}, {"C": 1, "Ce": 2, "Co": 1, "O": 3}, {"13C": 2, "C": 1, "D": 3, "H": -1}, {"e": -1, "p": 2, "n": 1, "N": 1},
              {"S": 1.5, "P": -0.25, "Na": 2}, {"H": 2, "O": 1, "e": 0}]
     glycans = [{"Hex": 2, "HexNAc": 1}, {"Fuc": 1, "Neu5Ac": 3}, {"Hex": 0.5, "Pen": 2}]
+    # every monosaccharide that has synonyms: the string / dict spelled with a synonym weighs and is composed like the one spelled
+    # with the name
+    with_syn = [(n, list(MONOSACCHARIDES_DB.get_entry_by_name(n).synonyms)) for n in MONOSACCHARIDES_DB.name_map
+                if MONOSACCHARIDES_DB.get_entry_by_name(n).synonyms]
+    gl_names = sorted({"Hex", "HexNAc", "Fuc", "Neu5Ac", "Pen"} | {n for n, _ in with_syn})
 
     def fn():
         m = {e: SR.real(f"el_m_{e}") for e in els}
         a = {e: SR.real(f"el_a_{e}") for e in els if not e[0].isdigit() and e != "D"}
         scal = {"ELECTRON_MASS": SR.real("electron"), "PROTON_MASS": SR.real("proton"), "NEUTRON_MASS": SR.real("neutron")}
-        sg = {n: (SR.real(f"gl_m_{n}"), SR.real(f"gl_a_{n}")) for n in ("Hex", "HexNAc", "Fuc", "Neu5Ac", "Pen")}
+        sg = {n: (SR.real(f"gl_m_{k}"), SR.real(f"gl_a_{k}")) for k, n in enumerate(gl_names)}
         attrs = []
         for n, (mm, aa) in sg.items():
             e = MONOSACCHARIDES_DB.get_entry_by_name(n)
@@ -108,14 +113,68 @@ def _e2_job(mono: bool) -> Obligation:
                     want = want + (sg[n][0] if mono else sg[n][1]) * c
                 props.append(SR.T(glycan_mass(dict(g), monoisotopic=mono)) == SR.T(want))
                 props.append(SR.T(glycan_mass(write_glycan_formula(g), monoisotopic=mono)) == SR.T(want))
+            for n, syns in with_syn:
+                for sname in syns:
+                    for cnt in (1, 3):
+                        want = (sg[n][0] if mono else sg[n][1]) * cnt
+                        try:
+                            got = [glycan_mass(f"{sname}{cnt}", monoisotopic=mono), glycan_mass({sname: cnt}, monoisotopic=mono),
+                                   glycan_mass(f"Hex2{sname}{cnt}", monoisotopic=mono) - (sg["Hex"][0] if mono else sg["Hex"][1]) * 2]
+                            same_comp = glycan_comp(f"{sname}{cnt}") == glycan_comp(f"{n}{cnt}") == glycan_comp({sname: cnt})
+                        except ValueError as err:
+                            fn.why = f"synonym {sname!r} of {n!r}: {type(err).__name__}: {err}"
+                            return False
+                        if not same_comp:
+                            fn.why = f"composition through synonym {sname!r} differs from the one through {n!r}"
+                            return False
+                        for gm in got:
+                            props.append(SR.T(gm) == SR.T(want))
         return z3.And(*props)
 
+    fn.why = ""
+
     def replay(model):
-        return None, "mass-linearity counterexample (symbolic element masses): " + repr(model)[:200], None
+        from ..e2lib import native_call
+        code = r"""
+def main(p):
+    import peptacular.constants as K
+    from peptacular.chem.chem_util import chem_mass, write_chem_formula
+    from peptacular.mass_calc import glycan_mass
+    from peptacular.glycan import glycan_comp, write_glycan_formula
+    from peptacular.mods.mod_db_setup import MONOSACCHARIDES_DB as DB
+    mono = p["mono"]; bad = []
+    def el(e):
+        if e in "epn": return {"e": K.ELECTRON_MASS, "p": K.PROTON_MASS, "n": K.NEUTRON_MASS}[e]
+        return K.ISOTOPIC_ATOMIC_MASSES[e] if (mono or e[0].isdigit() or e == "D") else K.AVERAGE_ATOMIC_MASSES[e]
+    ms = lambda n: DB.get_entry_by_name(n).mono_mass if mono else DB.get_entry_by_name(n).avg_mass
+    for comp in p["comps"]:
+        want = sum(el(e) * c for e, c in comp.items())
+        for sep in ("", " ", "|"):
+            for hill in (False, True):
+                if sep != "" and not any(v != 0 for v in comp.values()): continue
+                text = write_chem_formula(comp, sep=sep, hill_order=hill)
+                if abs(chem_mass(text, monoisotopic=mono, sep=sep) - want) > 1e-6: bad.append(f"chem_mass({text!r}) != mass of {comp}")
+    for g in p["glycans"]:
+        want = sum(ms(n) * c for n, c in g.items())
+        if abs(glycan_mass(dict(g), monoisotopic=mono) - want) > 1e-6 or abs(glycan_mass(write_glycan_formula(g), monoisotopic=mono) - want) > 1e-6:
+            bad.append(f"glycan_mass of {g}")
+    for n, syns in p["with_syn"]:
+        for sname in syns:
+            for cnt in (1, 3):
+                try:
+                    got = [glycan_mass(f"{sname}{cnt}", monoisotopic=mono), glycan_mass({sname: cnt}, monoisotopic=mono), glycan_mass(f"Hex2{sname}{cnt}", monoisotopic=mono) - 2 * ms("Hex")]
+                    if any(abs(x - ms(n) * cnt) > 1e-6 for x in got): bad.append(f"mass through synonym {sname!r} x{cnt}: {got} vs {ms(n) * cnt}")
+                    if not (glycan_comp(f"{sname}{cnt}") == glycan_comp(f"{n}{cnt}") == glycan_comp({sname: cnt})): bad.append(f"composition through synonym {sname!r}")
+                except ValueError as err:
+                    bad.append(f"synonym {sname!r} of {n!r}: {type(err).__name__}: {err}")
+    return {"violated": bool(bad), "detail": "; ".join(bad[:4])}
+"""
+        res = native_call(code, {"mono": mono, "comps": comps, "glycans": glycans, "with_syn": with_syn})
+        return res["violated"], res["detail"], None
 
     return run_e2(f"E2/mass-linearity/{'mono' if mono else 'avg'}", "mass of the written string = mass of the composition = count-weighted sum (chemical and glycan formulas)",
-                  fn, functions=FUNCS[6:], bounds="6 compositions incl. isotopes, particles, decimal and negative counts; 3 glycan compositions; all separators/orders; element and monosaccharide masses symbolic",
-                  replay=None, budget_s=60)
+                  fn, functions=FUNCS[6:], bounds="6 compositions incl. isotopes, particles, decimal and negative counts; 3 glycan compositions; every synonym of every monosaccharide (string, dict, inside a longer formula); all separators/orders; element and monosaccharide masses symbolic",
+                  replay=replay, budget_s=60)
 
 
 def run(tier: str, seed: int, only=None) -> Report:
